@@ -305,7 +305,7 @@ func (pw *PoolWorld) classify(err error) J {
 		v, _ := new(big.Int).SetString(m[1], 10)
 		k, ok := pw.w.money.abs(v)
 		if !ok {
-			pw.w.tr.flagBad("reported balance %s is not a multiple of the unit", m[1])
+			pw.w.tr.flagAmt("reported balance %s is not a multiple of the unit", m[1])
 		}
 		val = k
 	case reWmin.MatchString(msg):
@@ -314,7 +314,7 @@ func (pw *PoolWorld) classify(err error) J {
 		v, _ := new(big.Int).SetString(m[1], 10)
 		k, ok := pw.w.money.abs(v)
 		if !ok {
-			pw.w.tr.flagBad("reported balance %s is not a multiple of the unit", m[1])
+			pw.w.tr.flagAmt("reported balance %s is not a multiple of the unit", m[1])
 		}
 		val = k
 	case strings.HasPrefix(msg, "no host nodes available"), strings.HasPrefix(msg, "no available host nodes"):
@@ -608,7 +608,7 @@ func (w *World) poolOp(op J) (J, error) {
 			val["balance"] = w.balRec(*resp.Balance)
 		} else {
 			val["balance"] = J{"account": "", "credit": badAmount, "deposit": 0}
-			w.tr.flagBad("update reply without balance")
+			w.tr.flagAmt("update reply without balance")
 		}
 		return okRes(val), nil
 	case "Peer":
@@ -661,7 +661,7 @@ func (w *World) poolOp(op J) (J, error) {
 		}
 		k, ok := w.money.abs(lp)
 		if !ok {
-			w.tr.flagBad("paid %s is not a multiple of the unit", lp.String())
+			w.tr.flagAmt("paid %s is not a multiple of the unit", lp.String())
 		}
 		return okRes(k), nil
 	case "Account":
@@ -704,12 +704,12 @@ func (pw *PoolWorld) project(st J) {
 		}
 		k, ok := pw.w.money.abs(v)
 		if !ok {
-			pw.w.tr.flagBad("paid total %s is not a multiple of the unit", v.String())
+			pw.w.tr.flagAmt("paid total %s is not a multiple of the unit", v.String())
 		}
 		paid[a] = k
 		d, ok := pw.w.money.abs(pw.dep.deposit(store.Account(pw.w.names.wallet(a))))
 		if !ok {
-			pw.w.tr.flagBad("deposit is not a multiple of the unit")
+			pw.w.tr.flagAmt("deposit is not a multiple of the unit")
 		}
 		dep[a] = d
 	}
